@@ -10,6 +10,12 @@ Streams (model `Wpull.Filter` vs the real code in the wpull checkout):
   rawtest   the same on hand-assembled filter lists (duplicates, no span-hosts filter, ...)
   web/ftp   the real WebProcessorSession / FTPProcessorSession driven over an in-memory
             network; requests seen by the servers vs the model's session skeleton
+  crawl     whole crawls of the REAL application (harness/appsim.py: Builder(args).build().run() on the
+            deterministic loop, real SQLite table, scraper, clients) over generated sites on the start
+            host, a forbidden host, other ports / https / www., with scope options from the whole set:
+            every request line of the server log is attributed through the table trace to the item
+            (record) that issued it and its hop number, and must be accepted by the model's consult
+            and justified by the reference (robots.txt only for an origin being visited)
   astscan   every fetch/start call in processor/web.py, processor/ftp.py is dominated
             by a filter consultation (source scan)
 Direct oracle: `reference_scope`, an independent predicate written from the
@@ -38,10 +44,14 @@ RULE = ('test: command lines generated option by option (each scope option on/of
         'records with level / inline level / try count placed on the boundaries of the chosen limits (n-1, n, n+1, n+2, n+3), '
         'parent and root URLs on same / other hosts and schemes. non-trivial = at least one non-default scope option or a '
         'record beyond level 0; distinct by (argv, hostnames, url, record, is_redirect). '
-        'web/ftp: real processor sessions against scripted servers with redirects to other hosts and out-of-scope paths.')
+        'web/ftp: real processor sessions against scripted servers with redirects to other hosts and out-of-scope paths. '
+        'crawl: one case = one end-to-end crawl (5 origins: start host, forbidden host, other port, https port, www.; '
+        'links, page requisites and 1-2 hop redirects across them; 1-3 workers; robots on in ~25%); non-trivial = at least 2 page requests.')
 TRUSTED = ['the `re` engine and `fnmatch` are oracles of the model: their results are logged from the real calls and handed to the model',
            'URL parsing (URLInfo.parse) is engine Url\'s business: filters receive the parsed fields',
-           'harness/fakenet.py in-memory transports (web/ftp session streams)']
+           'harness/fakenet.py in-memory transports (web/ftp session streams)',
+           'harness/appsim.py + sched.py: the whole application on a deterministic loop (crawl stream); https runs without TLS '
+           '(--no-check-certificate, in-memory transport)']
 ASSUMPTIONS = ['the plugin hook accept_url is disconnected (default); a connected hook may override any verdict by design',
                'ItemSession.is_virtual is False for crawl items (checked on the real class each run)',
                'robots.txt fetches (including their own redirects) are the documented exception and belong to C20',
@@ -713,7 +723,8 @@ def boundary_cases(rng):
         for up in pths:
             for rs, us in (('http://a.example', 'http://a.example'), ('http://a.example', 'https://a.example'),
                            ('http://a.example', 'http://a.example:8080'), ('ftp://a.example', 'ftp://a.example'),
-                           ('http://a.example', 'ftp://a.example'), ('http://a.example', 'http://www.a.example')):
+                           ('http://a.example', 'ftp://a.example'), ('http://a.example', 'http://www.a.example'),
+                           ('http://a.example', 'https://a.example:8443'), ('http://a.example:8080', 'https://a.example')):
                 out.append({'argv': ['http://a.example/', '-r', '-H', '--follow-ftp', '--no-parent'], 'hostnames': ['a.example'],
                             'url': us + up, 'record': dict(base, root_url=rs + rootp), 'is_redirect': False})
     # domain / host lists: every host against every list element
@@ -1197,6 +1208,313 @@ def fixed_session_cases():
     return web, ftp
 
 
+# ------------------------------------------------------------------ part (b) end to end: whole crawls of the real application
+CR_A, CR_B = 'a.test', 'b.test'
+CR_HOSTKEYS = ['a.test', 'b.test', 'a.test:8080', 'a.test:8443', 'www.a.test']
+CR_PORTS = (80, 8080, 443, 8443)
+
+
+def cr_base(hostkey):
+    return ('https://' if hostkey.endswith(':8443') else 'http://') + hostkey
+
+
+def gen_crawl_site(rng):
+    """{hostkey: {target: page}}: a start host with directories, suffixes, images and redirects; the forbidden host
+    b.test; the start host on another port / over https / as www.; links and redirects cross all of them."""
+    paths = {
+        'a.test': ['/', '/d/', '/d/p1.html', '/d/p2.html', '/d/sub/p3.html', '/d/sub/', '/e/', '/e/p4.html', '/cgi-bin/q',
+                   '/d/tmpa', '/p5.html'],
+        'b.test': ['/', '/x', '/y.html', '/d/z.html'],
+        'a.test:8080': ['/', '/d/o1.html'],
+        'a.test:8443': ['/', '/d/s1.html', '/e/s2.html'],
+        'www.a.test': ['/', '/d/w1.html'],
+    }
+    images = {'a.test': ['/d/a.png', '/img/b.png', '/d/c.bmp'], 'b.test': ['/img/j.png'], 'a.test:8443': ['/d/k.png']}
+    redirs = {'a.test': ['/d/r1', '/d/r2.html', '/r3'], 'b.test': ['/back', '/on'], 'www.a.test': ['/d/r4']}
+    pool = [cr_base(h) + t for h, ts in paths.items() for t in ts]
+    pool += ['https://a.test/d/p1.html', 'https://a.test/e/p4.html']
+    rpool = [cr_base(h) + t for h, ts in redirs.items() for t in ts]
+    ipool = [cr_base(h) + t for h, ts in images.items() for t in ts]
+    site = {h: {} for h in CR_HOSTKEYS}
+
+    def spell(frm_host, url):
+        base = cr_base(frm_host)
+        if url.startswith(base + '/') and rng.random() < 0.6:
+            return url[len(base):]
+        return url
+    for h, ts in paths.items():
+        for t in ts:
+            r = rng.random()
+            if t.endswith('/') or t.endswith('.html') and r < 0.8 or r < 0.3:
+                links = []
+                for _ in range(rng.randint(1, 5)):
+                    u = rng.choice(pool + rpool) if rng.random() < 0.8 else rng.choice([q for q in pool if q.startswith(cr_base(h))])
+                    links.append((spell(h, u), False))
+                for _ in range(rng.choice([0, 0, 1, 2])):
+                    links.append((spell(h, rng.choice(ipool)), True))
+                site[h][t] = {'kind': 'html', 'links': links}
+            elif r < 0.9:
+                site[h][t] = {'kind': 'leaf'}
+            else:
+                site[h][t] = {'kind': 'missing'}
+    for h, ts in images.items():
+        for t in ts:
+            site[h][t] = {'kind': 'leaf', 'ctype': 'image/png'}
+    for h, ts in redirs.items():
+        for t in ts:
+            # targets are documents, never redirects: no cycles, one hop per redirect (chains come from links)
+            tgt = rng.choice(pool + ipool) if rng.random() < 0.85 else rng.choice(rpool)
+            if tgt in rpool:
+                tgt = rng.choice(pool)
+            site[h][t] = {'kind': 'redirect', 'location': spell(h, tgt), 'code': rng.choice([301, 302, 303, 307, 308])}
+    # a two-hop chain a -> b -> a
+    site['a.test']['/d/r1'] = {'kind': 'redirect', 'location': 'http://b.test/on', 'code': 302}
+    site['b.test']['/on'] = {'kind': 'redirect', 'location': rng.choice(['http://a.test/d/p2.html', 'http://b.test/y.html', 'http://a.test/e/p4.html']), 'code': 301}
+    start = rng.choice(['/d/', '/d/', '/'])
+    if site['a.test'][start]['kind'] != 'html':
+        site['a.test'][start] = {'kind': 'html', 'links': []}
+    site['a.test'][start]['links'] += [('/d/r1', False), (rng.choice(pool), False), ('http://b.test/y.html', False)]
+    for h in CR_HOSTKEYS:
+        r = rng.random()
+        if r < 0.5:
+            site[h]['/robots.txt'] = {'kind': 'robots', 'body': 'User-agent: *\nDisallow: %s\n' % rng.choice(['/none', '/e/', '/d/sub/', '/'])}
+    return site, 'http://a.test' + start
+
+
+def gen_crawl_extra(rng):
+    """scope options from the whole set the model knows"""
+    a = ['--no-check-certificate']
+    if rng.random() < 0.85:
+        a.append('-r')
+    a += ['-l', rng.choice(['inf', 'inf', '1', '2', '3'])]
+    if rng.random() < 0.5:
+        a.append('-p')
+    if rng.random() < 0.25:
+        a += ['--page-requisites-level', rng.choice(['1', '2', 'inf'])]
+    if rng.random() < 0.3:
+        a.append('--no-parent')
+    p = rng.choice([0.05, 0.12, 0.25])
+
+    def on():
+        return rng.random() < p
+    if on():
+        a += ['--accept-regex', rng.choice([r'test(:\d+)?/($|d|p)', r'\.html$|/$|png', r'^http:', r'a\.test'])]
+    if on():
+        a += ['--reject-regex', rng.choice([r'p[12]', r'/sub/', r'b\.test/y', r'^https', r'cgi', r'/on$'])]
+    if on():
+        a += ['-A', rng.choice(['html', 'html,png', 'png,bmp', 'p?.html'])]
+    if on():
+        a += ['-R', rng.choice(['bmp', 'png,bmp', 'tmp[!0-9]', 'z.html,y.html', 'x'])]
+    if on():
+        a += ['-I', rng.choice(['/d,/d/*', '/d*', '/,/d,/e', '/e,/d/sub'])]
+    if on():
+        a += ['-X', rng.choice(['/e', '/cgi-bin*', '/d/sub*', '/d/p1.html', '/img'])]
+    if on():
+        a += ['-D', rng.choice(['a.test', 'test', 'b.test,a.test'])]
+    if on():
+        a += ['--exclude-domains', rng.choice(['b.test', 'www.a.test', 'a.test'])]
+    if on():
+        a += ['--hostnames', rng.choice(['a.test', 'a.test,b.test', 'a.test,www.a.test'])]
+    if on():
+        a += ['--exclude-hostnames', rng.choice(['b.test', 'www.a.test'])]
+    r = rng.random()
+    if r < 0.2:
+        a.append('-H')
+    elif r < 0.5:
+        a += ['--span-hosts-allow', rng.choice(['page-requisites', 'linked-pages', 'linked-pages,page-requisites'])]
+    if rng.random() < 0.04:
+        a.append('--https-only')
+    if rng.random() < 0.4:
+        a += ['--tries', rng.choice(['1', '2', '3'])]
+    if rng.random() < 0.3:
+        a.append('--no-strong-redirects')
+    if rng.random() < 0.75:
+        a.append('--no-robots')
+    return a
+
+
+def _cr_server(site):
+    from appsim import Page, html
+    out = {}
+    for h, pages in site.items():
+        out[h] = {}
+        for t, p in pages.items():
+            k = p['kind']
+            if k == 'html':
+                out[h][t] = Page(200, html([r for r, i in p['links'] if not i], [r for r, i in p['links'] if i]))
+            elif k == 'leaf':
+                out[h][t] = Page(200, b'leaf data', ctype=p.get('ctype', 'text/plain'))
+            elif k == 'robots':
+                out[h][t] = Page(200, p['body'].encode(), ctype='text/plain')
+            elif k == 'redirect':
+                out[h][t] = Page(p.get('code', 301), b'', location=p['location'])
+            else:
+                out[h][t] = Page(404, b'nope', ctype='text/plain')
+    return out
+
+
+def _cr_url(entry):
+    scheme = 'https' if entry['port'] in (443, 8443) else 'http'
+    return '%s://%s%s' % (scheme, entry['host'], entry['target'])
+
+
+def _cr_robots_url(u):
+    ui = parse(u)
+    return parse('%s://%s/robots.txt' % (ui.scheme, ui.hostname_with_port)).url
+
+
+def _crawl_work(case):
+    """One whole crawl of the real application (runs in a worker process) and its judgement material:
+    for every page request the issuing item, its record, the hop number, the REAL standalone consult on the REAL
+    filter list of the REAL parsed argv, the model request line, and the reference's opinion."""
+    import multiprocessing as _mp
+    import appsim
+    import wpull.processor.web as pw
+    from wpull.url import urljoin
+    if _mp.current_process().name != 'MainProcess':
+        appsim.quiet_stderr()
+    site, start, extra, conc, seed = case['site'], case['start'], case['extra'], case['conc'], case['seed']
+    merged = []
+    orig_fetch_one = pw.WebProcessorSession._fetch_one
+
+    def fetch_one(self, request):
+        merged.append({'op': 'fetch', 'item': self._item_session.url_record.url, 'url': request.url_info.url})
+        return orig_fetch_one(self, request)
+    pw.WebProcessorSession._fetch_one = fetch_one
+    try:
+        res = appsim.run_crawl([start], _cr_server(site), seed=seed, concurrent=conc, extra=extra,
+                               on_table_event=lambda ev: merged.append(dict(ev)), ports=CR_PORTS)
+    finally:
+        pw.WebProcessorSession._fetch_one = orig_fetch_one
+    args = parse_args(appsim.default_argv([start], 'x.db', 'out', conc, extra))
+    hostnames = [parse(start).hostname]
+    demux = real_build(args, hostnames)
+    fenc = enc_filters(demux.url_filters)
+    strong, robots = bool(args.strong_redirects), bool(args.robots)
+
+    def page_of(u):
+        ui = parse(u)
+        t = ui.path + ('?' + ui.query if ui.query else '')
+        return (site.get(ui.hostname_with_port) or {}).get(t, {'kind': 'missing'})
+    added, out_rec, hops, fetched_items = {}, {}, {}, set()
+    fetches, candidates, skips, checkouts = [], [], [], []
+    with CallLog() as log:
+        def judge_one(url, rec, flag):
+            rep, verdict, reason, failed = real_consult(demux, url, rec, flag, log)
+            line = 'filter test %s %s %s %s %s' % (fenc, enc_info(parse(url)), enc_rec(rec), enc_bool(flag), log.tables())
+            return {'url': url, 'record': rec, 'flag': flag, 'real': rep, 'line': line,
+                    'broken': _justified(args, hostnames, url, rec, flag)}
+        for e in merged:
+            op = e['op']
+            if op == 'add_many':
+                for b in e['batch']:
+                    if b['url'] in e['inserted'] and b['url'] not in added:
+                        added[b['url']] = b
+            elif op == 'check_out' and e.get('got'):
+                u = e['got']
+                b = added.get(u, {})
+                out_rec[u] = {'parent_url': b.get('parent'), 'root_url': b.get('root'), 'level': e['level'],
+                              'inline_level': e['inline_level'], 'try_count': e['try_count']}
+                hops[u] = 0
+                fetched_items.discard(u)
+                j = judge_one(u, out_rec[u], False)
+                checkouts.append(j)
+                candidates.append(j)
+            elif op == 'fetch':
+                item = e['item']
+                rec = out_rec.get(item)
+                if rec is None:
+                    fetches.append({'url': e['url'], 'item': item, 'hop': -1, 'unattributed': True})
+                    continue
+                hop = hops[item]
+                hops[item] += 1
+                fetched_items.add(item)
+                j = judge_one(e['url'], rec, hop > 0 and strong)
+                j.update(item=item, hop=hop)
+                fetches.append(j)
+                pg = page_of(e['url'])
+                if pg['kind'] == 'redirect':
+                    tgt = parse(urljoin(e['url'], pg['location'])).url
+                    candidates.append(judge_one(tgt, rec, strong))
+            elif op == 'check_in':
+                if e['status'] == 'skipped' and e['url'] in out_rec and e['url'] not in fetched_items:
+                    skips.append(e['url'])
+    requests = [parse(_cr_url(r)).url for r in res.requests]
+    return {'fetches': fetches, 'candidates': [{'url': c['url'], 'broken': c['broken']} for c in candidates],
+            'checkouts': [{'url': c['url'], 'broken': c['broken'], 'record': c['record']} for c in checkouts], 'skips': skips,
+            'requests': requests, 'robots': robots, 'strong': strong, 'hung': res.hung, 'exit_code': res.exit_code,
+            'error': res.error, 'argv': ['<start>'] + list(extra), 'nrows': len(res.rows)}
+
+
+def run_crawl_cases(ctx, cases):
+    import concurrent.futures as cf
+    import multiprocessing as mp
+    if len(cases) <= 2:
+        results = [_crawl_work(c) for c in cases]
+    else:
+        with cf.ProcessPoolExecutor(max_workers=min(ctx.jobs, len(cases)), mp_context=mp.get_context('fork')) as ex:
+            results = list(ex.map(_crawl_work, cases, chunksize=1))
+    lines = [f['line'] for r in results for f in r['fetches'] if 'line' in f]
+    replies = iter(ctx.model.ask(lines))
+    for c, r in zip(cases, results):
+        case = dict(c, stream='crawl')
+        npages = len(r['fetches'])
+        offsite = len([f for f in r['fetches'] if parse(f['url']).hostname != CR_A])
+        ctx.case(('crawl', json.dumps(c, sort_keys=True)), nontrivial=npages >= 2,
+                 tags=['crawl:pages=%s' % ('0-1' if npages < 2 else '2-5' if npages < 6 else '6-15' if npages < 16 else '16+'),
+                       'crawl:workers=%d' % c['conc'], 'crawl:offsite-requests=%s' % ('0' if not offsite else '1+'),
+                       'crawl:redirect-hops=%s' % ('0' if not any(f.get('hop', 0) > 0 for f in r['fetches']) else '1+'),
+                       'crawl:robots=%s' % enc_bool(r['robots'])])
+        if r['hung'] or r['error'] or r['exit_code'] is None:
+            # the run itself is C01/C09's business; here it only means there is no complete trace to judge
+            ctx.tag('crawl:incomplete-run')
+        # ---- every page request: model verdict + reference
+        for f in r['fetches']:
+            if f.get('unattributed'):
+                ctx.fail('out-of-scope-request', 'crawl', case, 'request for %s by item %s that was never checked out' % (f['url'], f['item']))
+                continue
+            rep = next(replies)
+            what = {'request': f['url'], 'item': f['item'], 'hop': f['hop'], 'record': f['record'], 'is_redirect': f['flag']}
+            if rep != f['real']:
+                ctx.disagree('crawl', dict(case, **what), rep, f['real'])
+            elif rep.split(' ')[2] != 'T':
+                ctx.disagree('crawl', dict(case, **what), rep, 'the crawl requested %s' % f['url'])
+            if f['broken']:
+                ctx.fail('out-of-scope-request', 'crawl', dict(case, **what),
+                         'the crawl requested %s (hop %d of item %s, record %s) which breaks %s'
+                         % (f['url'], f['hop'], f['item'], f['record'], f['broken']))
+        # ---- every request line of the server log is one of those page requests, or an exempt robots.txt
+        pool = {}
+        for f in r['fetches']:
+            pool[f['url']] = pool.get(f['url'], 0) + 1
+        for u in r['requests']:
+            if pool.get(u, 0) > 0:
+                pool[u] -= 1
+                continue
+            if u.endswith('/robots.txt') and r['robots'] and \
+                    any(_cr_robots_url(cnd['url']) == u and not cnd['broken'] for cnd in r['candidates']):
+                ctx.tag('crawl:robots-exempt')
+                continue
+            ctx.fail('out-of-scope-request', 'crawl', dict(case, request=u),
+                     'the server received %s: not a page request of a checked-out item and not the robots.txt of an origin being visited' % u)
+        # ---- converse (cheap): in scope at check-out, yet skipped without any request
+        if not r['robots']:
+            acc = {co['url']: co for co in r['checkouts'] if not co['broken']}
+            for u in r['skips']:
+                if u in acc:
+                    ctx.disagree('crawl-skip', dict(case, item=u, record=acc[u]['record']), 'reference: in scope',
+                                 'skipped without a request')
+    if cases:
+        ctx.sample({'stream': 'crawl', 'start': cases[0]['start'], 'extra': cases[0]['extra'], 'workers': cases[0]['conc'],
+                    'requests': results[0]['requests'][:12]})
+
+
+def gen_crawl_case(rng):
+    site, start = gen_crawl_site(rng)
+    return {'site': site, 'start': start, 'extra': gen_crawl_extra(rng), 'conc': rng.choice([1, 1, 2, 3]),
+            'seed': rng.randrange(1 << 30)}
+
+
 # ------------------------------------------------------------------ source scan: every request call is dominated by a consultation
 FETCH_ATTRS = {'start', 'start_listing', 'fetch'}
 CONSULT_ATTRS = {'consult_filters', 'check_ftp_request', 'check_generic_request', 'check_subsequent_web_request',
@@ -1296,6 +1614,11 @@ def replay(ctx, case, kind=None, where=None):
             run_web_cases(ctx, [case], log)
         elif s == 'ftp':
             run_ftp_cases(ctx, [case], log)
+        elif s == 'crawl':
+            case = dict(case)
+            case['site'] = {h: {t: (dict(p, links=[tuple(l) for l in p['links']]) if 'links' in p else p) for t, p in ps.items()}
+                            for h, ps in case['site'].items()}
+            run_crawl_cases(ctx, [{k: case[k] for k in ('site', 'start', 'extra', 'conc', 'seed')}])
         elif s == 'astscan':
             ast_scan(ctx)
         elif s == 'assumption':
@@ -1342,7 +1665,9 @@ def run(ctx):
         srng = ctx.subrng('sessions')
         run_web_cases(ctx, web + [gen_web_case(srng) for _ in range(ctx.scale(600, 8000))], log)
         run_ftp_cases(ctx, ftp + [gen_ftp_case(srng) for _ in range(ctx.scale(450, 6000))], log)
-    ctx.note('todo', 'part (b) end-to-end: replay the request logs of whole crawls (C01 harness, second forbidden host) against the model')
+    # part (b) end to end: whole crawls of the real application
+    crng = ctx.subrng('crawl')
+    run_crawl_cases(ctx, [gen_crawl_case(crng) for _ in range(ctx.scale(40, 1000))])
 
 
 def search(ctx):
@@ -1354,3 +1679,4 @@ def search(ctx):
         run_rawtests(ctx, [gen_raw_case(rng) for _ in range(ctx.scale(300, 1000))], log)
         run_web_cases(ctx, [gen_web_case(rng) for _ in range(ctx.scale(100, 300))], log)
         run_ftp_cases(ctx, [gen_ftp_case(rng) for _ in range(ctx.scale(100, 300))], log)
+    run_crawl_cases(ctx, [gen_crawl_case(rng) for _ in range(ctx.scale(2, 6))])
